@@ -16,7 +16,7 @@ import numpy as np
 
 from engine import harness, smt, facade, stubs, linsolve
 from engine.harness import JobResult
-from engine.oblig import prove_abs_le, Outcome
+from engine.oblig import prove_abs_le, prove_cond, Outcome
 from engine.poly import Poly
 from engine.sym import Sym, as_sym, ctx, new_context, _vid, Cond, sym_array
 from checks import simlib
@@ -388,7 +388,131 @@ def job_connection(cfg):
     return res
 
 
+def job_backend(cfg):
+    """The real Solvers._Solve_Axb - everything it does around the FFI call (conversions, Lagrange fall-back, canonical format, any shortcut
+    taken on the VALUES of A or b) - runs on a symbolic right-hand side; only the backend functions are replaced by their contract:
+    spsolve / cg / bicg / gmres / lgmres return the x with A x = b, lsq_linear returns the minimiser of |A x - b| over lb <= x <= ub (for the
+    diagonal A used here: the clipped quotient).  Value-dependent branches (e.g. on b == 0) split the box of right-hand sides into regions that
+    are enumerated, lower-dimensional ones included."""
+    import EasyFEA.Simulations.Solvers as S
+    from EasyFEA import Simulations, Models
+    from engine import paths
+    import scipy.sparse as sp
+
+    res = JobResult(cfg)
+    c = new_context()
+    facade.install()
+    solver = cfg["solver"]
+    key = f"_Solve_Axb with solver '{solver}'"
+    res.functions |= {"Solvers._Solve_Axb"}
+    mesh = simlib.small_mesh("seg3")
+    simu = Simulations.Thermal(mesh, Models.Thermal(k=1.0, c=1.0), verbosity=False)
+    simu.solver = solver
+    pt = simu.problemType
+    n = 3
+    bounded = solver == "lsq_linear"
+    diag = [2.0, 0.5, 4.0]
+    A = sp.csr_matrix(np.diag(diag)) if bounded else sp.csr_matrix(np.array([[4.0, -1.0, 0.0], [-1.0, 3.0, -0.5], [0.0, -0.5, 2.0]]))
+    bsym = [c.var(f"b{i}", -1, 1, shadow=Fraction([3, -2, 1][i], 4)) for i in range(n)]
+    lbs = [c.var(f"lb{i}", 0, Fraction(9, 10), shadow=Fraction([1, 3, 2][i], 8)) for i in range(n)] if bounded else []
+    res.symbols = n + len(lbs)
+
+    def fake_lsq(Am, bv, bounds=None, **kw):
+        facade.USED_STUBS.add("scipy.optimize.lsq_linear -> exact minimiser for a diagonal matrix: clip(b_i / a_ii, lb_i, ub_i)")
+        lo, hi = bounds
+        Ad = np.asarray(Am.toarray() if hasattr(Am, "toarray") else Am, dtype=object)
+        out = []
+        for i in range(len(bv)):
+            q = as_sym(bv[i]) / Fraction(float(Ad[i, i]))
+            x = q
+            if q < lo[i]:
+                x = as_sym(lo[i])
+            elif q > hi[i]:
+                x = as_sym(hi[i])
+            out.append(x)
+        return {"x": np.array(out, dtype=object)}
+
+    def fake_direct(Am, bm, *a, **k):
+        facade.USED_STUBS.add("scipy.sparse.linalg.spsolve / cg / bicg / gmres / lgmres -> the x with A x = b (exact rational elimination)")
+        return stubs.ideal_solve(Am, bm)
+
+    def run_symbolic(i):
+        saved = (S.optimize, S.sla, S.CAN_USE_PYPARDISO)
+        class Opt:
+            lsq_linear = staticmethod(fake_lsq)
+        class Sla:
+            norm = staticmethod(lambda M, *a, **k: 0.0)
+            spsolve = staticmethod(fake_direct)
+            cg = bicg = gmres = lgmres = staticmethod(lambda Am, bm, *a, **k: (fake_direct(Am, bm), 0))
+        S.optimize, S.sla, S.CAN_USE_PYPARDISO = Opt, Sla, False
+        try:
+            with facade.symbolic():
+                b = facade.SymMatrix(np.array(bsym, dtype=object).reshape(-1, 1))
+                lo = np.array(lbs, dtype=object) if bounded else []
+                hi = np.ones(n) if bounded else []
+                x = S._Solve_Axb(simu, pt, A, b, np.zeros(n), lo, hi)
+            return np.asarray(x, dtype=object).reshape(-1)
+        finally:
+            S.optimize, S.sla, S.CAN_USE_PYPARDISO = saved
+
+    first = [{}, {_vid(v): 0 for v in bsym}]  # the generic point and the null right-hand side
+    regions, status = paths.explore(run_symbolic, bsym + lbs, max_regions=40, label=f"{key} coverage", first_shadows=first)
+    res.paths = len(regions)
+    if status.startswith("covered"):
+        res.held(f"{key}: {len(regions)} region(s) cover the box of right-hand sides" + (" and lower bounds" if bounded else ""), how="exact")
+    else:
+        res.record(f"{key}: regions cover the box", Outcome("inconclusive", how="exact", detail=status), None, key=f"{key} coverage")
+
+    def replay(env):
+        full = {kk: float(v) for kk, v in {**c.shadow, **(env or {})}.items()}
+        bf = np.array([full[_vid(v)] for v in bsym])
+        lo = np.array([full[_vid(v)] for v in lbs]) if bounded else []
+        hi = np.ones(n) if bounded else []
+        x = np.asarray(S._Solve_Axb(simu, pt, A, sp.csr_matrix(bf.reshape(-1, 1)), np.zeros(n), lo, hi), dtype=float).reshape(-1)
+        Ad = A.toarray()
+        if bounded:
+            want = np.clip(bf / np.diag(Ad), lo, hi)
+            bad = bool((x < lo - 1e-8).any() or (x > hi + 1e-8).any() or np.abs(x - want).max() > 1e-6)
+            return bad, {"b": bf.tolist(), "lower_bounds": list(map(float, lo)), "x_returned": x.tolist(), "constrained_minimiser": want.tolist()}
+        r = float(np.abs(Ad @ x - bf).max())
+        return r > 1e-6, {"b": bf.tolist(), "x_returned": x.tolist(), "max_residual": r}
+
+    Ad = np.asarray(A.toarray(), dtype=object)
+    for r in regions:
+        paths.reshadow(c, r.shadow)
+        pcs = list(r.pcs) + list(c.side) + list(c.domain_conds())
+        x = r.result
+        worst = None
+        if bounded:
+            # x is the projection of q = b / diag(A) on the box: lb <= x <= ub and the variational inequalities (x - q)(y - x) >= 0 at y = lb, ub
+            for i in range(n):
+                q = as_sym(bsym[i]) / Fraction(diag[i])
+                xi = as_sym(x[i])
+                goals = [(f"x[{i}] >= lb[{i}]", xi - lbs[i]), (f"x[{i}] <= ub[{i}]", 1 - xi),
+                         (f"(x - q)(lb - x) >= 0 [{i}]", (xi - q) * (lbs[i] - xi)), (f"(x - q)(ub - x) >= 0 [{i}]", (xi - q) * (1 - xi))]
+                for lab, expr in goals:
+                    expr = as_sym(expr)
+                    o = prove_cond(Cond(expr.n, ">=", lab), pcs, f"{key} {lab}")
+                    if o.status != "held":
+                        worst = worst or o
+            res.record(f"{key} region {r.index}: lb <= x <= ub and x is the constrained minimiser", worst or Outcome("held", how="exact"), replay, key=f"{key}: bounds honoured",
+                       sample=None if r.index else {"obligation": f"{key}: for all b in [-1,1]^3 and lb in [0,0.9]^3: lb <= x <= ub and x = clip(b / diag(A), lb, ub)"})
+        else:
+            Ax = facade._matmul(Ad, np.asarray(x, dtype=object))
+            for i in range(n):
+                o = prove_abs_le(as_sym(Ax[i]) - bsym[i], TOL, pcs, f"{key} residual")
+                if o.status != "held":
+                    worst = worst or o
+            res.record(f"{key} region {r.index}: A x = b", worst or Outcome("held", how="exact"), replay, key=f"{key}: A x = b",
+                       sample=None if r.index else {"obligation": f"{key}: for all b in [-1,1]^3: A x = b"})
+    res.twin(f"{key} twin", len(regions) >= 1 and prove_abs_le(as_sym(regions[0].result[0]) - 7, TOL, list(regions[0].pcs) + list(c.domain_conds()), "twin").status == "cex")
+    res.stubs |= facade.USED_STUBS
+    return res
+
+
 def job(cfg):
+    if cfg.get("backend"):
+        return job_backend(cfg)
     return job_connection(cfg) if cfg.get("connection") else job_layout(cfg)
 
 
@@ -407,6 +531,8 @@ def main():
     configs.append({"sim": "elastic", "layout": "disjoint", "newton": True})
     configs.append({"sim": "elastic", "layout": "duplicated", "newton": True, "orphan": True})
     configs.append({"connection": True})
+    for sv in ("scipy", "cg", "bicg", "gmres", "lgmres", "lsq_linear"):
+        configs.append({"backend": True, "solver": sv})
     results = harness.run_jobs(job, configs)
     harness.finish(
         PID, results, t0=t0,
